@@ -1,3 +1,4 @@
+\* X02 contract, cancel family: WithCancel / WithValue trees, every interleaving of CancelFunc calls, no time
 SPECIFICATION Spec
 CONSTANTS
   MaxNodes = 4
